@@ -17,16 +17,19 @@ inductive Val where
   | arr (l : List Val)
   | dict (l : List (Str × Val))
   | range (start stop step : Int)
+  /-- `SubprojectHolder`: the finished sub-interpreter's variable table -/
+  | subproj (name : Str) (vars : List (Str × Val))
   deriving Repr, Inhabited
 
 /-- the type a holder checks with `isinstance` / `type(..) is` -/
 inductive Ty where
-  | int | bool | str | arr | dict | range
+  | int | bool | str | arr | dict | range | subproj
   deriving DecidableEq, Repr, Inhabited
 
 def Val.ty : Val → Ty
   | .int _ => .int | .bool _ => .bool | .str _ => .str | .arr _ => .arr | .dict _ => .dict
   | .range .. => .range
+  | .subproj .. => .subproj
 
 /-- the exceptions that can leave `evaluate_codeblock` (class only, never message text) -/
 inductive ErrK where
@@ -36,6 +39,7 @@ inductive ErrK where
   | mesonException         -- MesonException proper
   | pyTypeError            -- a Python TypeError escaping the interpreter
   | breakRequest           -- `break` outside a loop
+  | subdirDoneRequest      -- `subdir_done()` reaching the top of `evaluate_codeblock`
   | continueRequest        -- `continue` outside a loop
   | unsupported            -- outside the modelled subset (never compared)
   deriving DecidableEq, Repr, Inhabited
@@ -117,6 +121,7 @@ end
 mutual
 def hasRange : Val → Bool
   | .range .. => true
+  | .subproj .. => true
   | .arr l => hasRangeL l
   | .dict d => hasRangeD d
   | _ => false
@@ -337,6 +342,7 @@ def stringify (quote : Bool) : Val → Option Str
   | .arr l => (stringifyL l).map (fun xs => ['['] ++ joinStr [',', ' '] xs ++ [']'])
   | .dict d => (stringifyD d).map (fun xs => ['{'] ++ joinStr [',', ' '] xs ++ ['}'])
   | .range .. => none
+  | .subproj .. => none
 termination_by structural v => v
 def stringifyL : List Val → Option (List Str)
   | [] => some []
